@@ -839,6 +839,18 @@ def install(w):
     M['Rc::new'] = lambda ex, c, a: ArcModel(a[0])
     M['<Arc as Clone>::clone'] = lambda ex, c, a: ArcModel(slot=deref(a[0]).slot)
     M['<Rc as Clone>::clone'] = lambda ex, c, a: ArcModel(slot=deref(a[0]).slot)
+    # atomics in a single-threaded execution: a cell
+    for _A in ('AtomicUsize', 'AtomicU64', 'AtomicBool', 'Atomic'):
+        M[_A + '::new'] = lambda ex, c, a: MutexModel(a[0])
+        M[_A + '::load'] = lambda ex, c, a: deep_copy(deref(a[0]).slot[0])
+        M[_A + '::store'] = lambda ex, c, a: (deref(a[0]).slot.__setitem__(0, a[1]), unit())[1]
+
+        def _fetch_add(ex, c, a):
+            m = deref(a[0])
+            old = m.slot[0]
+            m.slot[0] = ex.binop('Add', old, a[1])
+            return old
+        M[_A + '::fetch_add'] = _fetch_add
     M['Mutex::new'] = lambda ex, c, a: MutexModel(a[0])
     M['RwLock::new'] = lambda ex, c, a: MutexModel(a[0])
     M['RefCell::new'] = lambda ex, c, a: MutexModel(a[0])
